@@ -224,7 +224,77 @@ let run_script path =
      Printf.printf "IMG %d %d\n" (List.length items) hsh
    | None -> ())
 
+(* ---- the extracted decider of the global invariant (PrGlobalDef.fs_inv_b, sound by fs_inv_b_sound) ---- *)
+let rec nat_of_int i = if i <= 0 then O else S (nat_of_int (i - 1))
+let fsck_depth = nat_of_int 12
+
+let fsck_state (s : st) : string =
+  match s.s_vols with
+  | [v] ->
+    let fsz = bpb_fat_size (disk_get s.s_disk v.v_lba) in
+    if fs_inv_b fsck_depth fsz s.s_disk v (pend_of s v) then "ok" else "bad"
+  | [] -> "novol"
+  | _ -> "multi"
+
+(* fsck <image> <slot> <pending heads...>: mount with the model, decide the disk-level invariant *)
+let fsck_image path slot pend =
+  let img = load_image path in
+  let s = init_state img (n_of_int 5000) (n_of_int 1) (n_of_int 4) (n_of_int 4) [] in
+  match step (OpenVol (n_of_int slot)) s with
+  | (Ok _, s1) ->
+    (match s1.s_vols with
+     | [v] ->
+       let fsz = bpb_fat_size (disk_get s1.s_disk v.v_lba) in
+       print_endline (if fs_inv_b fsck_depth fsz s1.s_disk v (List.map n_of_int pend) then "FSCK ok" else "FSCK bad")
+     | _ -> print_endline "FSCK nomount")
+  | _ -> print_endline "FSCK nomount"
+
+(* runfsck <script>: run the script on the model and decide the invariant on the model's state after every call *)
+let run_fsck path =
+  let ic = open_in path in
+  let state = ref None in
+  let cfg = ref (1, 4, 4, 5000) and faults = ref [] and img = ref PositiveMap.empty in
+  let get_state () = match !state with
+    | Some s -> s
+    | None -> let (mv, md, mf, off) = !cfg in
+      let s = init_state !img (n_of_int off) (n_of_int mv) (n_of_int md) (n_of_int mf) (List.map n_of_int !faults) in
+      state := Some s; s in
+  let dead = ref false in
+  (try while true do
+     let line = String.trim (input_line ic) in
+     let toks = List.filter (fun x -> x <> "") (String.split_on_char ' ' line) in
+     match toks with
+     | [] -> ()
+     | "#" :: _ -> ()
+     | ["CFG"; mv; md; mf; off] -> cfg := (int_of_string mv, int_of_string md, int_of_string mf, int_of_string off)
+     | "FAULTS" :: l -> faults := List.map int_of_string l
+     | ["IMG"; p] -> img := load_image p
+     | nstr :: rest when not !dead ->
+         let n = int_of_string nstr in
+         let rec split acc = function
+           | ["->"; s] -> (List.rev acc, Some s)
+           | x :: r -> split (x :: acc) r
+           | [] -> (List.rev acc, None) in
+         let (optoks, bind) = split [] rest in
+         let o = parse_op optoks in
+         let s0 = { (get_state ()) with s_trace = [] } in
+         let (out, s1) = step o s0 in
+         (match out with
+          | Ok r ->
+            (match bind, r with
+             | Some sl, RHandle hh -> Hashtbl.replace slots sl (int_of_n hh)
+             | _ -> ())
+          | Err _ -> ()
+          | Panic | OutOfFuel -> dead := true);
+         state := Some s1;
+         Printf.printf "FSCK %d %s\n" n (fsck_state s1)
+     | _ -> ()
+   done with End_of_file -> ());
+  close_in ic
+
 let () =
   match Array.to_list Sys.argv with
   | [_; "run"; path] -> run_script path
+  | [_; "runfsck"; path] -> run_fsck path
+  | _ :: "fsck" :: path :: slot :: pend -> fsck_image path (int_of_string slot) (List.map int_of_string pend)
   | _ -> prerr_endline "usage: modelrun-fs run <script>"; exit 2
